@@ -334,6 +334,186 @@ class KwLast(ast.NodeTransformer):
         return node
 
 
+class LoopGuard(ast.NodeTransformer):
+    """for ...: S...; if T: BODY   ->   for ...: S...; if not T: continue; BODY      (the if is the last statement of the loop
+    body and has no else); same for a function body with `return` instead of `continue`"""
+    def _guard(self, body, exit_stmt):
+        if body and isinstance(body[-1], ast.If) and not body[-1].orelse and len(body[-1].body) >= 1 \
+                and not any(isinstance(x, (ast.Yield, ast.YieldFrom)) for x in ast.walk(body[-1])):
+            iff = body[-1]
+            g = ast.If(test=ast.UnaryOp(op=ast.Not(), operand=iff.test), body=[exit_stmt], orelse=[])
+            return body[:-1] + [g] + iff.body
+        return body
+
+    def visit_For(self, node):
+        self.generic_visit(node)
+        if not node.orelse:
+            node.body = self._guard(node.body, ast.Continue())
+        return node
+
+    visit_While = visit_For
+
+    def visit_FunctionDef(self, node):
+        self.generic_visit(node)
+        if not any(isinstance(x, (ast.Yield, ast.YieldFrom)) for x in ast.walk(node)):
+            node.body = self._guard(node.body, ast.Return(value=None))
+        return node
+
+
+class IntTemp(ast.NodeTransformer):
+    """for v in range(...): ... v + 1 ...   ->   v_nx = v + 1 at the top of the body, every `v + 1` read through it"""
+    def visit_For(self, node):
+        self.generic_visit(node)
+        if not (isinstance(node.target, ast.Name) and isinstance(node.iter, ast.Call) and isinstance(node.iter.func, ast.Name)
+                and node.iter.func.id == 'range'):
+            return node
+        v = node.target.id
+        if any(isinstance(x, ast.Name) and x.id == v and isinstance(x.ctx, ast.Store) for s_ in node.body for x in ast.walk(s_)):
+            return node
+        if any(isinstance(x, (ast.FunctionDef, ast.Lambda, ast.Global, ast.Nonlocal)) for s_ in node.body for x in ast.walk(s_)):
+            return node
+        nx = v + '_nx'
+        hit = [0]
+
+        class Sub(ast.NodeTransformer):
+            def visit_BinOp(self, b):
+                self.generic_visit(b)
+                if isinstance(b.op, ast.Add) and isinstance(b.left, ast.Name) and b.left.id == v and isinstance(b.right, ast.Constant) \
+                        and b.right.value == 1 and type(b.right.value) is int:
+                    hit[0] += 1
+                    return ast.copy_location(ast.Name(id=nx, ctx=ast.Load()), b)
+                return b
+        body = [Sub().visit(s_) for s_ in node.body]
+        if hit[0]:
+            node.body = [ast.Assign(targets=[ast.Name(id=nx, ctx=ast.Store())],
+                                    value=ast.BinOp(left=ast.Name(id=v, ctx=ast.Load()), op=ast.Add(), right=ast.Constant(1)))] + body
+        return node
+
+
+class Comp2Loop(ast.NodeTransformer):
+    """x = [E for t in IT if C]   ->   x = []; for t_c in IT: if C: x.append(E)      (single generator, statement level; the loop
+    variable gets a fresh name because a comprehension variable does not leak into the function scope)"""
+    def _block(self, stmts):
+        out = []
+        for s_ in stmts:
+            s_ = self.visit(s_)
+            if isinstance(s_, ast.Assign) and len(s_.targets) == 1 and isinstance(s_.targets[0], ast.Name) and isinstance(s_.value, ast.ListComp) \
+                    and len(s_.value.generators) == 1 and not s_.value.generators[0].is_async \
+                    and not any(isinstance(x, (ast.Lambda, ast.ListComp, ast.GeneratorExp, ast.SetComp, ast.DictComp, ast.NamedExpr)) for x in ast.walk(s_.value.elt)) \
+                    and not any(isinstance(x, ast.Name) and x.id == s_.targets[0].id for x in ast.walk(s_.value)):
+                g = s_.value.generators[0]
+                tn = {x.id for x in ast.walk(g.target) if isinstance(x, ast.Name)}
+
+                class Ren(ast.NodeTransformer):
+                    def visit_Name(self, n):
+                        return ast.copy_location(ast.Name(id=n.id + '_c', ctx=n.ctx), n) if n.id in tn else n
+                x = s_.targets[0].id
+                app = ast.Expr(ast.Call(func=ast.Attribute(value=ast.Name(id=x, ctx=ast.Load()), attr='append', ctx=ast.Load()),
+                                        args=[Ren().visit(s_.value.elt)], keywords=[]))
+                inner = [app]
+                for c in reversed(g.ifs):
+                    inner = [ast.If(test=Ren().visit(c), body=inner, orelse=[])]
+                out.append(ast.Assign(targets=[ast.Name(id=x, ctx=ast.Store())], value=ast.List(elts=[], ctx=ast.Load())))
+                out.append(ast.For(target=Ren().visit(g.target), iter=g.iter, body=inner, orelse=[]))
+            else:
+                out.append(s_)
+        return out
+
+    def generic_visit(self, node):
+        for fld in ('body', 'orelse', 'finalbody'):
+            blk = getattr(node, fld, None)
+            if isinstance(blk, list) and blk and isinstance(blk[0], ast.stmt):
+                setattr(node, fld, self._block(blk))
+        for h in getattr(node, 'handlers', []) or []:
+            h.body = self._block(h.body)
+        return node
+
+    def visit_Lambda(self, node):
+        return node
+
+    def visit_ClassDef(self, node):
+        # class-level comprehensions have their own scoping rules: only methods are rewritten
+        node.body = [self.visit(s_) if isinstance(s_, (ast.FunctionDef, ast.ClassDef)) else s_ for s_ in node.body]
+        return node
+
+    def visit_Module(self, node):
+        node.body = [self.visit(s_) if isinstance(s_, (ast.FunctionDef, ast.ClassDef)) else s_ for s_ in node.body]
+        return node
+
+
+class IfExp(ast.NodeTransformer):
+    """if c: x = A else: x = B  ->  x = A if c else B ;   if c: return A else: return B  ->  return A if c else B"""
+    def visit_If(self, node):
+        self.generic_visit(node)
+        if len(node.body) == 1 and len(node.orelse) == 1:
+            a, b = node.body[0], node.orelse[0]
+            if isinstance(a, ast.Return) and isinstance(b, ast.Return) and a.value is not None and b.value is not None:
+                return ast.copy_location(ast.Return(value=ast.IfExp(test=node.test, body=a.value, orelse=b.value)), node)
+            if isinstance(a, ast.Assign) and isinstance(b, ast.Assign) and len(a.targets) == 1 and len(b.targets) == 1 \
+                    and isinstance(a.targets[0], ast.Name) and isinstance(b.targets[0], ast.Name) and a.targets[0].id == b.targets[0].id:
+                return ast.copy_location(ast.Assign(targets=[a.targets[0]], value=ast.IfExp(test=node.test, body=a.value, orelse=b.value)), node)
+        return node
+
+
+class DeMorgan(ast.NodeTransformer):
+    """if a and b  ->  if not (not a or not b) ;  if a or b  ->  if not (not a and not b)     (tests of if / while only)"""
+    def _dm(self, t):
+        if isinstance(t, ast.BoolOp):
+            other = ast.Or() if isinstance(t.op, ast.And) else ast.And()
+            return ast.UnaryOp(op=ast.Not(), operand=ast.BoolOp(op=other, values=[ast.UnaryOp(op=ast.Not(), operand=v) for v in t.values]))
+        return t
+
+    def visit_If(self, node):
+        self.generic_visit(node)
+        node.test = self._dm(node.test)
+        return node
+
+    visit_While = visit_If
+
+
+class ArgTemp(ast.NodeTransformer):
+    """x = F(G(..), ...)  ->  _a0 = G(..); x = F(_a0, ...)      (first positional argument, when it is a call and F is a dotted name)"""
+    def _dotted(self, f):
+        while isinstance(f, ast.Attribute):
+            f = f.value
+        return isinstance(f, ast.Name)
+
+    def _block(self, stmts):
+        out = []
+        for s_ in stmts:
+            s_ = self.visit(s_)
+            call = None
+            if isinstance(s_, (ast.Assign, ast.Return, ast.Expr)) and isinstance(getattr(s_, 'value', None), ast.Call):
+                call = s_.value
+            if call is not None and self._dotted(call.func) and call.args and isinstance(call.args[0], ast.Call) \
+                    and not any(isinstance(x, (ast.Lambda, ast.Yield, ast.YieldFrom, ast.NamedExpr, ast.Starred)) for x in ast.walk(call)) \
+                    and not (isinstance(s_, ast.Assign) and any(not isinstance(t, ast.Name) for t in s_.targets)):
+                out.append(ast.Assign(targets=[ast.Name(id='_a0', ctx=ast.Store())], value=call.args[0]))
+                call.args[0] = ast.Name(id='_a0', ctx=ast.Load())
+            out.append(s_)
+        return out
+
+    def generic_visit(self, node):
+        for fld in ('body', 'orelse', 'finalbody'):
+            blk = getattr(node, fld, None)
+            if isinstance(blk, list) and blk and isinstance(blk[0], ast.stmt):
+                setattr(node, fld, self._block(blk))
+        for h in getattr(node, 'handlers', []) or []:
+            h.body = self._block(h.body)
+        return node
+
+    def visit_Lambda(self, node):
+        return node
+
+    def visit_ClassDef(self, node):
+        node.body = [self.visit(s_) if isinstance(s_, (ast.FunctionDef, ast.ClassDef)) else s_ for s_ in node.body]
+        return node
+
+    def visit_Module(self, node):
+        node.body = [self.visit(s_) if isinstance(s_, (ast.FunctionDef, ast.ClassDef)) else s_ for s_ in node.body]
+        return node
+
+
 def main():
     kind, dest = sys.argv[1], sys.argv[2]
     repo = sys.argv[3] if len(sys.argv) > 3 else '/repo'
@@ -344,7 +524,7 @@ def main():
         shutil.copytree(os.path.join(repo, sub), os.path.join(dest, sub),
                         ignore=shutil.ignore_patterns('*.so', '*.c', '*.cpp', '__pycache__', 'build', '*.o'))
     T = {'rename': Rename, 'ifswap': IfSwap, 'temp': RetTemp, 'cmpflip': CmpFlip, 'nestand': NestAnd, 'testtemp': TestTemp,
-         'early': Early, 'range0': Range0, 'notin': NotIn, 'chain': Chain, 'unpack': Unpack, 'reorder': Reorder, 'kwlast': KwLast}[kind]
+         'early': Early, 'loopguard': LoopGuard, 'inttemp': IntTemp, 'comp2loop': Comp2Loop, 'ifexp': IfExp, 'demorgan': DeMorgan, 'argtemp': ArgTemp, 'range0': Range0, 'notin': NotIn, 'chain': Chain, 'unpack': Unpack, 'reorder': Reorder, 'kwlast': KwLast}[kind]
     n = 0
     for root, _d, files in os.walk(os.path.join(dest, 'pyiga')):
         for f in files:
